@@ -288,6 +288,8 @@ def gen_op(ctx, r, shape, cshape, coord):
                 w = r.choice([[[1, 1], [1, 1]], [[1, 1], [1], [1, 1]], [[0, -1], [0, 0], [0, 0]], [[-2, 0], [1, 0], [0, 0]],
                               [[1, 2, 3], [1, 2, 3], [1, 2, 3]]])
         op = {'op': 'pad', 'width': w, **extra}
+        if form.startswith('nested') and not bad and r.random() < 0.25:
+            op['np_width'] = r.choice(['uint8', 'uint16', 'int64', 'int32'])
         if bad:
             return op, n, cshape
         return op, [n[d] + full[d][0] + full[d][1] for d in range(3)], cshape
@@ -450,7 +452,11 @@ def apply_op(obj, op, is_volume, state=None):
     if k == 'swap':
         return obj.swap_spatial_axes(op['a'], op['b'])
     if k == 'pad':
-        return obj.pad(op['width'], **pad_kw)
+        w = op['width']
+        if op.get('np_width') and isinstance(w, list) and w and isinstance(w[0], list):
+            dt = getattr(np, op['np_width'])      # nested forms with numpy integers (signed or unsigned)
+            w = [[dt(x) for x in p] for p in w]
+        return obj.pad(w, **pad_kw)
     if k == 'pad_to':
         return obj.pad_to_spatial_shape(op['shape'], **pad_kw)
     if k == 'crop_to':
